@@ -159,3 +159,35 @@ def build(eng, tier):
 
     eng.add_target(Target("DoublyLinkedSet.__len__", mod=LL_MOD, qual="DoublyLinkedSet.__len__", self_cls="DoublyLinkedSet",
         requires=["LL(self)"], ensures=["result == len(D(self))", unchanged]))
+
+    # ---- iterators: a generator's only state is its cursor `box`; `yield` is an interference point -------------------
+    # rely (what any code running between two steps may do, as guaranteed by R(self) of every mutator above)
+    RELY = ["LL(self)", "R(self)"]
+    CURSOR = ["LL(self)", "nonnull(box)", "allocated(box)", "inU(self, box)", "g_last >= 0",
+              "box is self._root or box.g_pos > g_last",
+              # nothing live between the last yielded position and the cursor
+              "forall(lambda x=_LinkBox: implies(live(self, x) and x.g_pos > g_last, box is not self._root and x.g_pos >= box.g_pos))"]
+    eng.add_target(Target("DoublyLinkedSet.__iter__", mod=LL_MOD, qual="DoublyLinkedSet.__iter__", self_cls="DoublyLinkedSet",
+        requires=["LL(self)"], ghost_init="g_last = self._root.g_pos",
+        yield_spec=dict(
+            ensures=["yielded is not None", "live(self, box) and yielded is box.value",      # a member, now
+                     "box.g_pos > g_last",                                                   # strictly forward: at most once
+                     # ... and the first live node after the previous yield (none is skipped)
+                     "forall(lambda x=_LinkBox: implies(live(self, x) and x.g_pos > g_last, x.g_pos >= box.g_pos))"],
+            ghost="g_last = box.g_pos", rely=RELY, modifies=BOXF + LIST_F + ["$alloc"]),
+        loops={0: LoopSpec(invariant=CURSOR, modifies=BOXF + LIST_F + ["$alloc"])},
+        # exhaustion: when the generator returns nothing live lies beyond the last yielded position
+        ensures=["forall(lambda x=_LinkBox: implies(live(self, x), x.g_pos <= g_last))"],
+        dead=["raise RuntimeError"]))
+
+    eng.functions[f"{LL_MOD}.DoublyLinkedSet.extend"] = FnDecl(
+        f"{LL_MOD}.DoublyLinkedSet.extend", "contract", LL_MOD, "DoublyLinkedSet.extend",
+        requires=["LL(self)"], ensures=["LL(self)", "R(self)", "others_untouched(self)"],
+        raises={"TypeError": ["LL(self)", "R(self)", "others_untouched(self)"]}, modifies=BOXF + LIST_F + ["$alloc"])
+    eng.add_target(Target("DoublyLinkedSet.__init__", mod=LL_MOD, qual="DoublyLinkedSet.__init__", self_cls="DoublyLinkedSet",
+        params=dict(values=TSeq(TRef(None))),
+        # a list under construction: no box refers to it yet
+        requires=["forall(lambda b=_LinkBox: b.owning_list is not self)"],
+        ghost=[("store:root_", "after", "root_.g_pos = 0\nroot_.g_lim = 1")],
+        ensures=["LL(self)", "others_untouched(self)"],
+        raises={"TypeError": ["LL(self)", "others_untouched(self)"]}))
